@@ -808,7 +808,7 @@ def generate(module, cfgfile, cfgs, defines, sink, timeout=1500, simulate=None, 
 
 # ------------------------------------------------------------------ zones (judge-side, from the property statements)
 HOLDERS = ("command", "cmd", "originatingCommand")
-ZONE_KEYS = ("query", "filter", "sort", "update", "updates", "deletes", "q", "u", "documents", "pipeline")
+ZONE_KEYS = ("query", "filter", "sort", "update", "updates", "deletes", "q", "u", "documents", "pipeline", "arrayFilters", "c")
 NS_COMMAND_FIELDS = ("ns", "aggregate", "insert", "find", "update", "collection", "delete", "$db", "count", "findAndModify",
                      "findOneAndDelete", "replace", "findOneAndReplace", "findOneAndUpdate", "getIndexes", "countDocuments")
 
